@@ -216,9 +216,9 @@ def render_inventory(inv, pres, lines, repo):
 GEN_PATH = os.path.join(COQ, "gen", "PanicInventory.v")
 
 
-def regenerate_inventory():
-    inv, pres, lines = scan_repo()
-    txt = render_inventory(inv, pres, lines, REPO)
+def regenerate_inventory(repo=None):
+    inv, pres, lines = scan_repo(repo)
+    txt = render_inventory(inv, pres, lines, repo or REPO)
     os.makedirs(os.path.dirname(GEN_PATH), exist_ok=True)
     old = open(GEN_PATH).read() if os.path.exists(GEN_PATH) else None
     if old != txt:
@@ -313,7 +313,6 @@ def compact(term):
     for x in LONG_STRINGS:
         lit = c_str(x)
         if lit not in term: continue
-        head = x.rstrip(x[0]) if False else None
         c0 = x[0]
         k = len(x) - len(x.lstrip(c0))
         rest = x[k:]
@@ -485,7 +484,7 @@ SEQ_CORPUS = [
 
 def gen_seq(r, tier):
     n = 70 if tier == "quick" else 500
-    LONG_P[0] = 0.03 if tier == "quick" else 0.15
+    LONG_P[0] = 0.03 if tier == "quick" else 0.06
     out = []
     for _ in range(n):
         out.append(g_ctor(r)); out.append(g_vec(r)); out.append(g_vec(r)); out.append(g_registry(r))
@@ -547,7 +546,7 @@ ENC_CORPUS = [
 
 
 def gen_enc(r, tier):
-    n = 220 if tier == "quick" else 2000
+    n = 220 if tier == "quick" else 2400
     out = [dict(fams=f, entry=e, prefill="") for f in ENC_CORPUS for e in ENTRIES]
     for _ in range(n):
         k = r.random()
@@ -578,12 +577,13 @@ def c_bytes_hex(h): return "[" + ";".join(str(b) for b in bytes.fromhex(h)) + "]
 ENTRY_COQ = dict(text="EText", utf8="EUtf8", string="EString", pb="EPb")
 
 COQ_HDR_ENC = """Require Import PV.Base.Prelude PV.Base.F64 PV.Base.Utf8 PV.Model.Proto PV.Model.Desc PV.Model.Value PV.Model.Text PV.Model.Pb PV.Model.PanicSites.
-Require Import PV.Proofs.C17Facts PV.Spec.SpecC17.
+Require Import PV.Spec.SpecC17.
 Open Scope N_scope.
 Set Printing Width 1000000.
 Set Printing Depth 1000000.
-(* the outcome the models of Model/PanicSites.v give (text: the decision function the model is proved equal to,
-   C17Facts.text_encode_decision), and the failing-writer model applied to the implementation's own unlimited output *)
+(* the outcome the models of Model/PanicSites.v give (text: the decision function the three-outcome model is proved equal
+   to, C17Facts.text_encode_decision), and the failing-writer model applied to the implementation's own unlimited output.
+   Nothing here depends on Proofs/ or gen/: the comparison still runs when a proof obligation is broken. *)
 Definition model_kind (c : enc_case) : outcome :=
   match c_entry c with EPb => pb_encode_o (map pb_of_family (c_fams c)) | _ => text_decision (c_fams c) end.
 Definition impl_kind (r : eres) : outcome := match r with EOk _ => OutOk | EErr e _ => OutErr e | EPanic => OutPanic O end.
@@ -740,6 +740,14 @@ class C17(SeqProp):
 
     # ---------------------------------------------------------------- the check
     def run(self, tier, seed, replay=None):
+        try:
+            return self.run17(tier, seed, replay)
+        finally:
+            # a run against a scratch copy (PV_REPO) must not leave its inventory behind as the committed default copy
+            if REPO != "/repo" and os.path.isdir("/repo/src"):
+                regenerate_inventory("/repo")
+
+    def run17(self, tier, seed, replay=None):
         t0 = time.time()
         pid = self.pid
         print("[%s] tier=%s seed=%d" % (pid, tier, seed))
@@ -765,7 +773,7 @@ class C17(SeqProp):
                                                  trusted_base=TRUSTED, evaluations=0, distinct_nontrivial=0, rule=self.rule, samples=[],
                                                  explanation="harness build failed"), self.assumptions, time.time() - t0, 0)
             return 2
-        spec_vo = os.path.exists(os.path.join(COQ, "Spec", "SpecC17.vo")) and os.path.exists(os.path.join(COQ, "Proofs", "C17Facts.vo"))
+        spec_vo = os.path.exists(os.path.join(COQ, "Spec", "SpecC17.vo")) and os.path.exists(os.path.join(COQ, "Model", "PanicSites.vo"))
         r = random.Random(seed)
         # 3. scenarios
         if replay:
@@ -779,7 +787,7 @@ class C17(SeqProp):
         sq = self.eval_seq("C17", scs, bin_dbg, bin_rel) if spec_vo else None
         en = self.eval_encoders("C17_enc", encs, bin_dbg, bin_rel, r) if spec_vo else None
         if not spec_vo:
-            print("[%s] ERROR: Spec/SpecC17.vo or Proofs/C17Facts.vo was not built" % pid)
+            print("[%s] ERROR: Spec/SpecC17.vo or Model/PanicSites.vo was not built" % pid)
             # fall back to a textual scan for panics so that a failing input is still reported
             sq, en = self.textual(scs, encs, bin_dbg, bin_rel, r)
         errors = sq["errors"] + en["errors"]
